@@ -13,6 +13,14 @@ void dec (void) {
 	vf_assert (v <= 1);                       /* started at 2, two decrementers: results are 1 and 0 in some order */
 	if (v == 0) { reached_zero = 1; }
 }
+void dec_twice (void) {
+	uint32_t v1 = nsync_counter_add (c, -1);
+	uint32_t v2;
+	vf_assert (v1 == 1);
+	v2 = nsync_counter_add (c, -1);
+	vf_assert (v2 == 0);
+	reached_zero = 1;
+}
 void waiter (void) {
 	uint32_t r = nsync_counter_wait (c, nsync_time_no_deadline);
 	vf_assert (r == 0);
